@@ -47,6 +47,9 @@ def run(chk):
         wj, sph = area_world(rng) if modelled else any_world(rng)
         if rng.random() < 0.15:
             wj["features"] = []
+        if wi % 10 in (3, 7):
+            # the magnitude of the uniform gravity model is a plain double: zero and negative values included
+            wj["gravity model"] = {"model": "uniform", "magnitude": 0.0 if wi % 10 == 7 else -round(rng.uniform(1, 15), 3)}
         slot = cs.add_world(wj, model=modelled)
         el = cs.worlds[slot][2]
         for qi in range(10):
